@@ -219,6 +219,12 @@ func (l *IPFSLog) traverse(rootEntries iface.IPFSLogOrderedEntries, amount int, 
 		e := stack[0]
 		stack = stack[1:]
 
+		// A root entry that is also a predecessor of another root is on the
+		// stack twice: skip it the second time so it is not counted again
+		if _, ok := result.Get(e.GetHash().String()); ok {
+			continue
+		}
+
 		// Add to the result
 		result.Set(e.GetHash().String(), e)
 		traversed[e.GetHash().String()] = struct{}{}
@@ -428,6 +434,7 @@ func (l *IPFSLog) Iterator(options *IteratorOptions, output chan<- iface.IPFSLog
 
 	if options.Amount != nil {
 		if *options.Amount == 0 {
+			close(output)
 			return nil
 		}
 		amount = *options.Amount
@@ -493,7 +500,7 @@ func (l *IPFSLog) Iterator(options *IteratorOptions, output chan<- iface.IPFSLog
 	}
 
 	// Deal with the amount argument working backwards from gt/gte
-	if (options.GT.Defined() || options.GTE.Defined()) && amount > -1 {
+	if (options.GT.Defined() || options.GTE.Defined()) && amount > -1 && amount < len(entries) {
 		entries = entries[len(entries)-amount:]
 	}
 
